@@ -80,7 +80,7 @@ theorem fanout_output_order_independent (env : Env) (fuel : Nat) (bs : List Json
 /-- the same for Map iterations -/
 theorem map_output_order_independent (env : Env) (fuel : Nat) (proc : Json) (sel : Option Json) (input : Json)
     (items : List Json) (mc : Nat) (be : Rat) (ctx : Json) (st st' : St) (vs : List Json)
-    (h : runItems env fuel proc sel input items 0 mc be ctx st = (.ok vs, st'))
+    (h : runItems env fuel proc sel input items 0 mc be ctx false st = (.ok vs, st'))
     (σ : List (Nat × Json)) (hσ : ∀ p ∈ σ, vs[p.1]? = some p.2)
     (hall : ∀ i, i < vs.length → ∃ v, (i, v) ∈ σ) :
     Join.result (Join.feed (Join.init items.length) σ) = some vs := by
